@@ -149,13 +149,37 @@ pub fn run_case(ctx: &Ctx, case: u64) {
                         },
                         Poll::Pending => {
                             pend.fetch_add(1, Ordering::Relaxed);
+                            // Every other time the stream is polled again at once by a *different* task
+                            // (a fresh waker): the latest poll's waker is the one that must be woken.
+                            let mut base = base;
+                            if (*seen_wakes + *i as u64) % 2 == 0 {
+                                let fresh = Arc::new(CountWaker(AtomicU64::new(0)));
+                                let w2 = waker(fresh.clone());
+                                let mut cx2 = Context::from_waker(&w2);
+                                match st.as_mut().poll_next(&mut cx2) {
+                                    Poll::Ready(it) => {
+                                        let end = it.is_none();
+                                        logs[*i].lock().unwrap().push(record(case, it));
+                                        if end {
+                                            *done = true;
+                                        }
+                                        *seen_wakes += 1;
+                                        continue;
+                                    },
+                                    Poll::Pending => {
+                                        *cw = fresh;
+                                        base = 0;
+                                        pend.fetch_add(1, Ordering::Relaxed);
+                                    },
+                                }
+                            }
                             // the stream promised to wake this task when something arrives: wait for
                             // the wake-up (logical wait), never poll speculatively
                             let cw2 = cw.clone();
                             match await_cond(20_000, &move || cw2.0.load(Ordering::SeqCst) > base) {
                                 Ok(true) => {
                                     wk.fetch_add(1, Ordering::Relaxed);
-                                    *seen_wakes = cw.0.load(Ordering::SeqCst);
+                                    *seen_wakes += 1;
                                 },
                                 Ok(false) => {
                                     wp.lock().unwrap().push(("waker-never-invoked-after-pending".into(), json!({"stream": *i})));
@@ -322,6 +346,118 @@ pub fn run_case(ctx: &Ctx, case: u64) {
     }
 }
 
+/// A burst of conversions on idle channels, then one message at a time, last-created stream first,
+/// while everything else stays quiet: each must be delivered and end-of-stream must follow the drop.
+pub fn run_idle_burst(ctx: &Ctx, case: u64) {
+    let rep = &ctx.rep;
+    let mut r = Rng::derive(ctx.seed, 0xc20b, case);
+    let k = r.range(2, 32) as usize;
+    let mut txs = Vec::new();
+    let mut rxs = Vec::new();
+    for _ in 0..k {
+        let (tx, rx) = must("channel", ipc::channel::<M>());
+        txs.push(Some(tx));
+        rxs.push(rx);
+    }
+    // the burst
+    let mut streams: Vec<_> = rxs.into_iter().map(|rx| rx.to_stream()).collect();
+    let mut problems: Vec<(String, Value)> = Vec::new();
+    let order: Vec<usize> = if r.chance(700) { (0..k).rev().collect() } else { let mut o: Vec<usize> = (0..k).collect(); r.shuffle(&mut o); o };
+    for (n, &i) in order.iter().enumerate() {
+        let tag = i as u32;
+        if txs[i].as_ref().unwrap().send((tag, 0, Blob(body(mid(case, tag, 0), 40)))).is_err() {
+            problems.push(("send-failed".into(), json!({"stream": i})));
+            continue;
+        }
+        // manual polling with a counting waker and a logical wait for the wake-up
+        let cw = Arc::new(CountWaker(AtomicU64::new(0)));
+        let mut got = None;
+        for _ in 0..3 {
+            let base = cw.0.load(Ordering::SeqCst);
+            let w = waker(cw.clone());
+            let mut cx = Context::from_waker(&w);
+            match Pin::new(&mut streams[i]).poll_next(&mut cx) {
+                Poll::Ready(it) => {
+                    got = Some(it);
+                    break;
+                },
+                Poll::Pending => {
+                    let cw2 = cw.clone();
+                    match await_cond(20_000, &move || cw2.0.load(Ordering::SeqCst) > base) {
+                        Ok(true) => continue,
+                        Ok(false) => {
+                            problems.push(("idle-burst:message-never-delivered".into(), json!({"stream": i, "created_streams": k, "position_in_order": n})));
+                            break;
+                        },
+                        Err(e) => {
+                            rep.inconclusive(&format!("c20 burst case {}: {}", case, e));
+                            return;
+                        },
+                    }
+                },
+            }
+        }
+        match got {
+            Some(Some(Ok((t, 0, b)))) if t == tag && body_diff(mid(case, tag, 0), 40, &b.0).is_none() => {},
+            Some(other) => problems.push(("idle-burst:wrong-item".into(), json!({"stream": i, "got": format!("{:?}", other.map(|x| x.map(|m| (m.0, m.1)).map_err(|e| e.to_string())))}))),
+            None => {},
+        }
+        if !problems.is_empty() {
+            break;
+        }
+    }
+    // end of stream after the drops
+    if problems.is_empty() {
+        for i in 0..k {
+            txs[i] = None;
+        }
+        for (i, st) in streams.iter_mut().enumerate() {
+            let cw = Arc::new(CountWaker(AtomicU64::new(0)));
+            let mut ended = false;
+            for _ in 0..3 {
+                let base = cw.0.load(Ordering::SeqCst);
+                let w = waker(cw.clone());
+                let mut cx = Context::from_waker(&w);
+                match Pin::new(&mut *st).poll_next(&mut cx) {
+                    Poll::Ready(None) => {
+                        ended = true;
+                        break;
+                    },
+                    Poll::Ready(Some(_)) => {
+                        problems.push(("idle-burst:item-after-all-were-consumed".into(), json!({"stream": i})));
+                        break;
+                    },
+                    Poll::Pending => {
+                        let cw2 = cw.clone();
+                        match await_cond(20_000, &move || cw2.0.load(Ordering::SeqCst) > base) {
+                            Ok(true) => continue,
+                            Ok(false) => break,
+                            Err(e) => {
+                                rep.inconclusive(&format!("c20 burst case {}: {}", case, e));
+                                return;
+                            },
+                        }
+                    },
+                }
+            }
+            if !ended && problems.is_empty() {
+                problems.push(("idle-burst:stream-never-ends".into(), json!({"stream": i, "created_streams": k})));
+                break;
+            }
+        }
+    }
+    rep.case(&("idle-burst", k, order.first().cloned()), true);
+    rep.stat("idle_burst_scenarios", 1);
+    rep.stat("idle_burst_streams", k as i64);
+    let base = json!({"case": case, "scenario": "idle-burst", "streams": k});
+    let mut seen = std::collections::BTreeSet::new();
+    for (kind, d) in problems {
+        if seen.insert(kind.clone()) {
+            rep.violation(&format!("C20:{}", kind), json!({"ctx": base, "problem": d}), ctx.replay(case));
+        }
+    }
+}
+
 pub fn run(ctx: &Ctx) {
     let n = ctx.opt_u64("cases", if ctx.thorough { 300 } else { 20 });
     for i in 0..n {
@@ -329,7 +465,11 @@ pub fn run(ctx: &Ctx) {
         if !ctx.want(case) {
             continue;
         }
-        run_case(ctx, case);
+        if i % 3 == 2 {
+            run_idle_burst(ctx, case);
+        } else {
+            run_case(ctx, case);
+        }
         if ctx.rep.nviol.load(Ordering::Relaxed) >= 6 {
             break;
         }
